@@ -6,8 +6,8 @@ import Drivers.Common
 /-! `vm_c07`: line protocol over `Model.Access` / `Model.Types` / `Model.Inst` with the regenerated tables.
 
   acc  <H> <path> <recv> <mod> <ctx> <lex> <obj> <decl>     → allowed | denied | stuck
-  exec <H> <site…> <read|write1|write0|call>                → <ok|denied|stuck> cell=<n> calls=<n>
-                                                               (start: cell 1, calls 0; a write stores 2)
+  exec <H> <site…> <read|write1|write0|call|unset>          → <ok|denied|stuck> cell=<n> calls=<n>
+                                                               (start: cell 1, calls 0; a write stores 2, unset 0)
   isa  <H> <c> <t>                                           → 1 | 0 | stuck
   ty   <H> <val> <ty tokens…>                                → 1 | 0 | stuck          (Types.Is)
   bd   <H> <boundary> <val> <ty tokens…>                     → 1 | 0 | stuck          (admitted at the boundary)
@@ -47,6 +47,7 @@ def parsePath : String → Option Path
   | "selfProp" => some .selfProp | "selfMeth" => some .selfMeth
   | "staticKwProp" => some .staticKwProp | "staticKwMeth" => some .staticKwMeth
   | "parentMeth" => some .parentMeth
+  | "unsetProp" => some .unsetProp | "unsetIdx" => some .unsetIdx | "iterate" => some .iterate
   | _ => none
 
 def showPath : Path → String
@@ -56,6 +57,7 @@ def showPath : Path → String
   | .staticPropRead => "staticPropRead" | .staticPropWrite => "staticPropWrite" | .staticMeth => "staticMeth"
   | .selfProp => "selfProp" | .selfMeth => "selfMeth" | .staticKwProp => "staticKwProp"
   | .staticKwMeth => "staticKwMeth" | .parentMeth => "parentMeth"
+  | .unsetProp => "unsetProp" | .unsetIdx => "unsetIdx" | .iterate => "iterate"
 
 def parseRecv : String → Option Recv
   | "this" => some .this | "other" => some .other | _ => none
@@ -202,7 +204,7 @@ def handle (line : String) : String :=
       let o : Option Op :=
         match op with
         | "read" => some (.read 0) | "write1" => some (.write 0 2 true) | "write0" => some (.write 0 2 false)
-        | "call" => some (.call 0) | _ => none
+        | "call" => some (.call 0) | "unset" => some (.write 0 0 true) | _ => none
       match o with
       | none => "bad-op"
       | some o =>
@@ -223,7 +225,7 @@ def handle (line : String) : String :=
   | "bd" :: h :: b :: v :: toks =>
     match parseHier h, parseBoundary b, parseVal v, parseTy (toks.length + 1) toks with
     | some H, some b, some v, some (t, []) =>
-      if stuckOn H t v then "stuck" else bit (admit (isATotal H) (Generated.C07Access.boundary b) t v)
+      if stuckOn H t v then "stuck" else bit (admits (isATotal H) (Generated.C07Access.boundary b) t v)
     | _, _, _, _ => "bad-op"
   | ["inst", w, c] =>
     match parseWorld w, c.toNat? with
